@@ -89,7 +89,7 @@ def _classify(ctx, dist, distinct, samples, mode, env, runs, lockstep):
 def run(ctx):
     ctx.cov["trusted_base"] += [
         "vrt/vrt.cpp (TSan-ABI interposition, deterministic scheduler, futex emulation, happens-before race monitor) and the TSan-instrumented build (differs from production in the places listed in DESIGN 3.3)",
-        "executions are sequentially consistent interleavings at atomic-operation granularity; memory orders are tied statically (generated order constants used by the model's happens-before ghost, skeleton obligations), dynamically by trace equality and by the race monitor; the store-buffering pattern status-store / seq_cst fence / waiter-load vs. waiter-CAS / futex compare is proved for SC interleavings only and explored (oracle-only) in VRT's release/acquire view mode, where loads may be stale (mixed-size accesses to one futex word are outside the C++ memory model)",
+        "executions are sequentially consistent interleavings at atomic-operation granularity; memory orders are tied statically (generated order constants used by the model's happens-before ghost, skeleton obligations), dynamically by trace equality and by the race monitor; the whole protocol is proved for SC interleavings; item publication and the store-buffering handshake (status store / seq_cst fence / waiter-half load vs. waiter RMW / futex barrier / status load) are additionally proved over the release/acquire view model of Core/MemView (topic_publication_view, topic_wake_view*, with negative controls), the two halves of the mixed-size futex word taken as two locations (adds behaviours) and futex_wait's full barrier taken from the kernel contract; VRT's view mode (whole-cell histories) explores the real code oracle-only",
         "ConcurrentVector replaced by its specification (slot i exists when asked for; for_each splits at block boundaries; reserved_snapshot / ensure / size arithmetic tied by gen/topic.py shape checks)",
         "kernel futex contract: wait compares and sleeps atomically, wake-all wakes every sleeper, spurious returns allowed",
         "client contract (header comments): close only after every publish returned and no publish until clear; clear runs alone and invalidates consumers; one thread per consumer; CONCURRENT=false variant of publish_n not modelled",
@@ -167,5 +167,5 @@ def replay(ctx, path):
 MANIFEST = {
     "technique": "Lean 4 proof (invariants over all interleavings of an atomic-granularity transition system with a happens-before ghost) + translator-generated constant/order/skeleton obligations + lock-step replay of real executions under a deterministic scheduler with futex emulation and a race monitor",
     "text": "Theorems in lean/Babylon/Properties/C15.lean hold for every interleaving, thread count, batch size, block size and publish/close/clear history of the model; each model step is one atomic operation, fence or futex call of the real code, and every trace of the real ConcurrentTransientTopic produced under VRT is checked to be a path of the model (same operation, location, memory order, values, wake counts)",
-    "note": "Trusted: Lean kernel + 3 standard axioms; gen/topic.py; vrt/ (scheduler, futex emulation, TSan-ABI build); SC interleavings (publication proved along the release-fence/acquire-fence edges the source has; the wake-up Dekker pattern only for SC); ConcurrentVector by specification; client contract for close / clear",
+    "note": "Trusted: Lean kernel + 3 standard axioms; gen/topic.py; vrt/ (scheduler, futex emulation, TSan-ABI build); full protocol over SC interleavings, publication and the wake-up handshake also over the view model of Core/MemView (word halves as two locations, futex_wait barrier from the kernel contract); ConcurrentVector by specification; client contract for close / clear",
 }
